@@ -298,14 +298,136 @@ def _levels_source(e: ast.AST, sn: str):
     return None
 
 
+def _strip_order(e: ast.AST) -> ast.AST:
+    """reversed(X) / list(X) / tuple(X) / X[::-1] / X[:] denote the same elements as X (order aside)."""
+    while True:
+        if isinstance(e, ast.Call) and isinstance(e.func, ast.Name) and e.func.id in ("reversed", "list", "tuple", "iter") and len(e.args) == 1 and not e.keywords:
+            e = e.args[0]
+        elif isinstance(e, ast.Subscript) and isinstance(e.slice, ast.Slice) and e.slice.lower is None and e.slice.upper is None:
+            e = e.value
+        else:
+            return e
+
+
+def _describe_generators(ctx: Ctx, cls_name: str, sn: str, defs: dict, gens: list, elt, self_name_of_accessor: str | None, _depth: int = 0) -> dict:
+    """Core of deme_listing / iteration_source: gens = [(target, iter, [conditions])] from the outermost loop inwards."""
+    from ..core import canon
+
+    out = {"levels": None, "filters": set(), "elt": "?", "level_no_exact": False, "why": ""}
+    idx_vars: dict[str, int] = {}    # level-index variable -> offset of its range
+    list_vars: dict[str, tuple] = {}  # level-list variable -> (offset, index var or None)
+    deme_var = None
+    deme_idx = None
+    levels = None
+    filters = set()
+    inherited_pair = None
+
+    def res(e):
+        hops = 0
+        while isinstance(e, ast.Name) and e.id in defs and len(defs[e.id]) == 1 and hops < 4:
+            e = defs[e.id][0]
+            hops += 1
+        return e
+
+    for tg, it0, ifs in gens:
+        it = _strip_order(it0)
+        t_it = canon(it)
+        handled = False
+        if isinstance(it, ast.Call) and norm(it.func) == "range" and len(it.args) == 1 and isinstance(tg, ast.Name):
+            k = _height_offset(res(it.args[0]), sn)
+            if k is not None:
+                idx_vars[tg.id] = k
+                handled = True
+        elif isinstance(it, ast.Call) and norm(it.func) == "enumerate" and len(it.args) == 1 and isinstance(tg, ast.Tuple) and len(tg.elts) == 2 and all(isinstance(x, ast.Name) for x in tg.elts):
+            k = _levels_source(_strip_order(it.args[0]), sn)
+            if k is not None:
+                idx_vars[tg.elts[0].id] = k
+                list_vars[tg.elts[1].id] = (k, tg.elts[0].id)
+                handled = True
+        elif _levels_source(it, sn) is not None and isinstance(tg, ast.Name):
+            list_vars[tg.id] = (_levels_source(it, sn), None)
+            handled = True
+        elif isinstance(it, ast.Subscript) and _levels_source(_strip_order(it.value), sn) is not None and isinstance(tg, ast.Name) and isinstance(it.slice, ast.Slice) and it.slice.step is None and (it.slice.lower is None or norm(it.slice.lower) == "0"):
+            # self.levels[:H] (possibly after a reversal of the whole list): a prefix of the levels
+            k = _levels_source(ast.Subscript(value=_strip_order(it.value), slice=it.slice, ctx=ast.Load()), sn)
+            if k is not None:
+                list_vars[tg.id] = (k, None)
+                handled = True
+        elif isinstance(it, ast.Subscript) and canon(it.value) in (f"{sn}.levels", f"{sn}._levels") and isinstance(it.slice, ast.Name) and it.slice.id in idx_vars and isinstance(tg, ast.Name):
+            deme_var, deme_idx, levels = tg.id, it.slice.id, idx_vars[it.slice.id]
+            handled = True
+        elif isinstance(it, ast.Name) and it.id in list_vars and isinstance(tg, ast.Name):
+            deme_var, levels, deme_idx = tg.id, list_vars[it.id][0], list_vars[it.id][1]
+            handled = True
+        elif is_self_attr(it, None, sn) and it.attr in ("all_demes", "active_demes", "active_non_leaves") and it.attr != self_name_of_accessor and isinstance(tg, ast.Tuple) and len(tg.elts) == 2 and all(isinstance(x, ast.Name) for x in tg.elts):
+            sub = deme_listing(ctx, cls_name, it.attr, _depth + 1)
+            if sub["levels"] is not None and sub["elt"] == "pair":
+                levels, deme_var, deme_idx = sub["levels"], tg.elts[1].id, tg.elts[0].id
+                idx_vars[deme_idx] = levels
+                filters |= sub["filters"]
+                inherited_pair = sub["level_no_exact"]
+                handled = True
+        elif isinstance(res(it), (ast.ListComp, ast.GeneratorExp)) and _depth < 3:
+            # a local list built by a comprehension (a snapshot): describe that comprehension
+            comp = res(it)
+            sub = _describe_generators(ctx, cls_name, sn, defs, [(g.target, g.iter, list(g.ifs)) for g in comp.generators], comp.elt, self_name_of_accessor, _depth + 1)
+            if sub["levels"] is not None and sub["elt"] in ("pair", "deme"):
+                levels = sub["levels"]
+                filters |= sub["filters"]
+                if sub["elt"] == "pair" and isinstance(tg, ast.Tuple) and len(tg.elts) == 2 and all(isinstance(x, ast.Name) for x in tg.elts):
+                    deme_var, deme_idx = tg.elts[1].id, tg.elts[0].id
+                    idx_vars[deme_idx] = levels
+                    inherited_pair = sub["level_no_exact"]
+                    handled = True
+                elif sub["elt"] == "deme" and isinstance(tg, ast.Name):
+                    deme_var, deme_idx = tg.id, None
+                    handled = True
+        if not handled:
+            out["why"] = f"iterates `{t_it[:60]}`"
+            return out
+        for c in ifs:
+            conj = c.values if isinstance(c, ast.BoolOp) and isinstance(c.op, ast.And) else [c]
+            for cc in conj:
+                tc = canon(cc)
+                if deme_var and tc in (f"{deme_var}.is_active", f"{deme_var}._active"):
+                    filters.add("is_active")
+                elif deme_var and tc in (f"not{deme_var}.is_active", f"not{deme_var}._active"):
+                    filters.add("not is_active")
+                elif deme_idx and isinstance(cc, ast.Compare) and len(cc.ops) == 1 and isinstance(cc.left, ast.Name) and cc.left.id == deme_idx and isinstance(cc.ops[0], (ast.Lt, ast.LtE, ast.NotEq)):
+                    k = _height_offset(res(cc.comparators[0]), sn)
+                    if k is None:
+                        filters.add("?" + tc)
+                    elif isinstance(cc.ops[0], ast.Lt):
+                        levels = min(levels, k)
+                    elif isinstance(cc.ops[0], ast.LtE):
+                        levels = min(levels, k + 1)
+                    elif k == (levels - 1):  # i != last index of the range
+                        levels = levels - 1
+                    else:
+                        filters.add("?" + tc)
+                else:
+                    filters.add("?" + tc)
+    if deme_var is None:
+        out["why"] = "no deme variable found"
+        return out
+    e = elt
+    if isinstance(e, ast.Tuple) and len(e.elts) == 2 and isinstance(e.elts[1], ast.Name) and e.elts[1].id == deme_var:
+        out["elt"] = "pair"
+        out["level_no_exact"] = isinstance(e.elts[0], ast.Name) and e.elts[0].id == deme_idx and (inherited_pair is not False)
+    elif isinstance(e, ast.Name) and e.id == deme_var:
+        out["elt"] = "deme"
+    out["levels"] = levels
+    out["filters"] = filters
+    out["deme_var"] = deme_var
+    return out
+
+
 def deme_listing(ctx: Ctx, cls_name: str, accessor: str, _depth: int = 0) -> dict:
     """What a DemeTree listing accessor enumerates, read off its (normalised) comprehension:
     levels: k <= 0 meaning the levels [0, height + k), or None (not understood);  filters: set of 'is_active' / 'not is_active'
     / '?<text>';  elt: 'pair' (level number, deme) / 'deme' / '?';  level_no_exact: the number paired with a deme is the index
     of the level list the deme was taken from;  why: reason when something is not understood.
     Accessors built on other accessors (`[(l, d) for l, d in self.all_demes if d.is_active]`) are resolved recursively."""
-    from ..core import canon
-
     out = {"levels": None, "filters": set(), "elt": "?", "level_no_exact": False, "why": ""}
     try:
         m = ctx.prog.own_method(cls_name, accessor)
@@ -325,96 +447,50 @@ def deme_listing(ctx: Ctx, cls_name: str, accessor: str, _depth: int = 0) -> dic
     while isinstance(v, ast.Name) and v.id in defs and len(defs[v.id]) == 1 and hops < 4:
         v = defs[v.id][0]
         hops += 1
-    if isinstance(v, ast.Call) and norm(v.func) == "list" and len(v.args) == 1:
-        v = v.args[0]
+    v = _strip_order(v) if isinstance(v, ast.Call) and norm(v.func) == "list" else v
     if is_self_attr(v, None, sn) and v.attr in ("all_demes", "active_demes", "active_non_leaves") and v.attr != accessor:
         return deme_listing(ctx, cls_name, v.attr, _depth + 1)
     if not isinstance(v, (ast.ListComp, ast.GeneratorExp)):
         out["why"] = f"{accessor} returns `{norm(v)[:60]}`, not a comprehension"
         return out
-    idx_vars: dict[str, int] = {}    # level-index variable -> offset of its range
-    list_vars: dict[str, tuple] = {}  # level-list variable -> (offset, index var or None)
-    deme_var = None
-    deme_idx = None
-    levels = None
-    filters = set()
-    inherited_pair = None
-    for g in v.generators:
-        it, tg = g.iter, g.target
-        t_it = canon(it)
-        handled = False
-        if isinstance(it, ast.Call) and norm(it.func) == "range" and len(it.args) == 1 and isinstance(tg, ast.Name):
-            a0 = it.args[0]
-            hops = 0
-            while isinstance(a0, ast.Name) and a0.id in defs and len(defs[a0.id]) == 1 and hops < 4:
-                a0 = defs[a0.id][0]
-                hops += 1
-            k = _height_offset(a0, sn)
-            if k is not None:
-                idx_vars[tg.id] = k
-                handled = True
-        elif isinstance(it, ast.Call) and norm(it.func) == "enumerate" and len(it.args) == 1 and isinstance(tg, ast.Tuple) and len(tg.elts) == 2 and all(isinstance(x, ast.Name) for x in tg.elts):
-            k = _levels_source(it.args[0], sn)
-            if k is not None:
-                idx_vars[tg.elts[0].id] = k
-                list_vars[tg.elts[1].id] = (k, tg.elts[0].id)
-                handled = True
-        elif _levels_source(it, sn) is not None and isinstance(tg, ast.Name):
-            list_vars[tg.id] = (_levels_source(it, sn), None)
-            handled = True
-        elif isinstance(it, ast.Subscript) and canon(it.value) in (f"{sn}.levels", f"{sn}._levels") and isinstance(it.slice, ast.Name) and it.slice.id in idx_vars and isinstance(tg, ast.Name):
-            deme_var, deme_idx, levels = tg.id, it.slice.id, idx_vars[it.slice.id]
-            handled = True
-        elif isinstance(it, ast.Name) and it.id in list_vars and isinstance(tg, ast.Name):
-            deme_var, levels, deme_idx = tg.id, list_vars[it.id][0], list_vars[it.id][1]
-            handled = True
-        elif is_self_attr(it, None, sn) and it.attr in ("all_demes", "active_demes", "active_non_leaves") and it.attr != accessor and isinstance(tg, ast.Tuple) and len(tg.elts) == 2 and all(isinstance(x, ast.Name) for x in tg.elts):
-            sub = deme_listing(ctx, cls_name, it.attr, _depth + 1)
-            if sub["levels"] is not None and sub["elt"] == "pair":
-                levels, deme_var, deme_idx = sub["levels"], tg.elts[1].id, tg.elts[0].id
-                idx_vars[deme_idx] = levels
-                filters |= sub["filters"]
-                inherited_pair = sub["level_no_exact"]
-                handled = True
-        if not handled:
-            out["why"] = f"{accessor} iterates `{t_it[:60]}`"
-            return out
-        for c in g.ifs:
-            conj = c.values if isinstance(c, ast.BoolOp) and isinstance(c.op, ast.And) else [c]
-            for cc in conj:
-                tc = canon(cc)
-                if deme_var and tc in (f"{deme_var}.is_active", f"{deme_var}._active"):
-                    filters.add("is_active")
-                elif deme_var and tc in (f"not{deme_var}.is_active", f"not{deme_var}._active"):
-                    filters.add("not is_active")
-                elif deme_idx and isinstance(cc, ast.Compare) and len(cc.ops) == 1 and isinstance(cc.left, ast.Name) and cc.left.id == deme_idx and isinstance(cc.ops[0], (ast.Lt, ast.LtE, ast.NotEq)):
-                    rhs = cc.comparators[0]
-                    hops = 0
-                    while isinstance(rhs, ast.Name) and rhs.id in defs and len(defs[rhs.id]) == 1 and hops < 4:
-                        rhs = defs[rhs.id][0]
-                        hops += 1
-                    k = _height_offset(rhs, sn)
-                    if k is None:
-                        filters.add("?" + tc)
-                    elif isinstance(cc.ops[0], ast.Lt):
-                        levels = min(levels, k)
-                    elif isinstance(cc.ops[0], ast.LtE):
-                        levels = min(levels, k + 1)
-                    elif k == (levels - 1):  # i != last index of the range
-                        levels = levels - 1
-                    else:
-                        filters.add("?" + tc)
-                else:
-                    filters.add("?" + tc)
-    if deme_var is None:
-        out["why"] = f"{accessor}: no deme variable found"
-        return out
-    e = v.elt
-    if isinstance(e, ast.Tuple) and len(e.elts) == 2 and isinstance(e.elts[1], ast.Name) and e.elts[1].id == deme_var:
-        out["elt"] = "pair"
-        out["level_no_exact"] = isinstance(e.elts[0], ast.Name) and e.elts[0].id == deme_idx and (inherited_pair is not False)
-    elif isinstance(e, ast.Name) and e.id == deme_var:
-        out["elt"] = "deme"
-    out["levels"] = levels
-    out["filters"] = filters
-    return out
+    res = _describe_generators(ctx, cls_name, sn, defs, [(g.target, g.iter, list(g.ifs)) for g in v.generators], v.elt, accessor, _depth)
+    if res["why"]:
+        res["why"] = f"{accessor} " + res["why"]
+    return res
+
+
+def iteration_source(ctx: Ctx, cls_name: str, f: FuncInfo, loop: ast.For) -> dict:
+    """What a `for` loop inside a DemeTree method iterates, in the terms of deme_listing: the chain of enclosing `for` loops
+    (outermost first) plus the `if` guards that wrap the innermost body are read as the generators / filters of one
+    comprehension whose element is the innermost loop variable (or its deme component)."""
+    sn = f.self_name()
+    defs = local_defs(f)
+    chain = []
+
+    def find(stmts, path):
+        for st in stmts:
+            if st is loop:
+                chain.extend(path + [st])
+                return True
+            for fld in ("body", "orelse"):
+                b = getattr(st, fld, None)
+                if isinstance(b, list) and b and isinstance(b[0], ast.stmt):
+                    if find(b, path + ([st] if isinstance(st, ast.For) else [])):
+                        return True
+        return False
+
+    find(f.node.body, [])
+    if not chain:
+        return {"levels": None, "filters": set(), "elt": "?", "level_no_exact": False, "why": "loop not found"}
+    gens = [(lp.target, lp.iter, []) for lp in chain]
+    body = loop.body
+    # only guards about the deme's activity / level belong to the source; other conditions (hibernation, options) stay
+    while len(body) == 1 and isinstance(body[0], ast.If) and not body[0].orelse and any(isinstance(x, ast.Attribute) and x.attr in ("is_active", "_active", "level", "_level") for x in ast.walk(body[0].test)) and not any(isinstance(x, ast.Attribute) and x.attr == "_hibernating" for x in ast.walk(body[0].test)):
+        gens[-1][2].append(body[0].test)
+        body = body[0].body
+    tg = loop.target
+    elt = tg if isinstance(tg, ast.Name) else (ast.Tuple(elts=list(tg.elts), ctx=ast.Load()) if isinstance(tg, ast.Tuple) else tg)
+    # hibernation / option conditions are not part of the source: keep only conditions about the deme's activity or level
+    res = _describe_generators(ctx, cls_name, sn, defs, gens, elt, None)
+    res["body"] = body
+    return res
